@@ -29,7 +29,11 @@ func runCorpus(g *gen) {
 		}
 		for _, p := range strings.Split(f[7], ",") {
 			x := strings.Split(p, ":")
-			rq.parts = append(rq.parts, partSpec{form: x[0], fname: string(hx.UnHex(x[1])), content: string(hx.UnHex(x[2]))})
+			ps := partSpec{form: x[0], fname: string(hx.UnHex(x[1])), content: string(hx.UnHex(x[2]))}
+			if len(x) > 3 && x[3] == "fn" {
+				ps.fnMode = 1 // the part carries a filename parameter whatever its field name
+			}
+			rq.parts = append(rq.parts, ps)
 		}
 		if f[4] != "-" {
 			x := strings.Split(f[4], ".")
